@@ -3,7 +3,7 @@ from __future__ import annotations
 
 import ast
 
-from sa.loader import norm, norm1, walk_shallow, call_name, subscript_writes, own_nodes
+from sa.loader import recv, norm, norm1, walk_shallow, call_name, subscript_writes, own_nodes
 from sa.cfg import canon_fact
 from sa.rulekit import (nodes_calling, node_calls, nodes_where, return_nodes, node_roots,
                         is_const, kw)
@@ -30,7 +30,7 @@ def _is_startswith(e, lit=None):
             and len(e.args) == 1 and isinstance(e.args[0], ast.Constant) \
             and isinstance(e.args[0].value, str):
         if lit is None or e.args[0].value == lit:
-            return norm(e.func.value), e.args[0].value
+            return recv(e), e.args[0].value
     return None
 
 
@@ -122,7 +122,7 @@ def run(ck):
           "no `raise EdzedInvalidState` under is_ready() == False", send, send.node)
     # the gate is the circuit's: get_circuit().is_ready() or self._dest.circuit.is_ready()
     for g in gate_tests:
-        rcv = [norm(c.func.value) for c in node_calls(g, 'is_ready')]
+        rcv = [recv(c) for c in node_calls(g, 'is_ready')]
         ok = all(r in ('simulator.get_circuit()', 'self._dest.circuit', 'get_circuit()')
                  for r in rcv) and bool(rcv)
         ck.ob(R1, f"{send.fid} :: gate receiver", ok,
@@ -266,7 +266,7 @@ def run(ck):
                                              for t in a.targets):
             return 'U'
         for c in node_calls(n):
-            if isinstance(c.func, ast.Attribute) and norm(c.func.value) == 'data' and \
+            if isinstance(c.func, ast.Attribute) and recv(c) == 'data' and \
                     c.func.attr in ('update', 'pop', 'clear', 'setdefault', 'popitem', '__setitem__'):
                 return 'U'
         return st
@@ -332,7 +332,7 @@ def run(ck):
                 elif tgt.slice.value == 'value':
                     val_w.append(n)
         for c in node_calls(n):
-            if isinstance(c.func, ast.Attribute) and norm(c.func.value) == 'data' and \
+            if isinstance(c.func, ast.Attribute) and recv(c) == 'data' and \
                     c.func.attr in ('update', 'pop', 'clear', 'setdefault', 'popitem'):
                 keys_ok = False
                 bad_keys.append(norm1(n.ast))
@@ -356,7 +356,7 @@ def run(ck):
           send, val_w[0].ast if val_w else send.node)
     okd = len(dcall.args) == 1 and norm(dcall.args[0]) == 'self._etype' and \
         len(dcall.keywords) == 1 and dcall.keywords[0].arg is None and \
-        norm(dcall.keywords[0].value) == 'data' and norm(dcall.func.value) == 'self._dest'
+        norm(dcall.keywords[0].value) == 'data' and recv(dcall) == 'self._dest'
     ck.ob(R2b, f"{send.fid} :: delivery arguments", okd,
           "self._dest.event(self._etype, **data)" if okd else
           f"delivery call is `{norm(dcall)}`; expected self._dest.event(self._etype, **data)",
